@@ -1135,9 +1135,21 @@ func (c *Context) integerPower(d, x *Decimal, y *BigInt) (Condition, error) {
 			ed.Mul(&n, &n, &n)
 		}
 		if err := ed.Err(); err != nil {
-			// In the negative case, convert overflow to underflow.
+			// In the negative case the result is the reciprocal: an overflow of
+			// x**|y| means the result underflows, and the other way round.
 			if neg {
-				ed.Flags = ed.Flags.negateOverflowFlags()
+				switch f := ed.Flags; {
+				case f.Overflow() || f.SystemOverflow():
+					ed.Flags = f.negateOverflowFlags()
+				case f.Underflow() || f.SystemUnderflow():
+					f &^= Underflow | Subnormal
+					f |= Overflow
+					if f.SystemUnderflow() {
+						f &^= SystemUnderflow
+						f |= SystemOverflow
+					}
+					ed.Flags = f
+				}
 			}
 			return ed.Flags, err
 		}
